@@ -50,3 +50,11 @@ func VerifC04FileOpen(a *Agent, peerID identity.AgentID, streamID, requestID uin
 func VerifC04FileData(a *Agent, peerID identity.AgentID, streamID uint64, data []byte, flags uint8) {
 	a.handleFileTransferStreamData(peerID, streamID, data, flags)
 }
+
+// VerifC04Process feeds one frame from `peerID` through the agent's real dispatch (processFrame).
+func VerifC04Process(a *Agent, peerID identity.AgentID, f *protocol.Frame) { a.processFrame(peerID, f) }
+
+// VerifC04FileOpenUp drives the exit side of a file UPLOAD stream open.
+func VerifC04FileOpenUp(a *Agent, peerID identity.AgentID, streamID, requestID uint64, pub [crypto.KeySize]byte) {
+	a.handleFileUploadStreamOpen(peerID, streamID, requestID, pub)
+}
